@@ -70,7 +70,7 @@ def same_prefix(ctx, rule):
     ctx.check(len(ext) == 1 and ext[0].endswith(",target_path[RangeFrom{start:prefix}])"), rule, fn, "append", "the tail is appended to the climbs")
     # the helper sees exactly the two lists, sorted by length, and returns a prefix of the first (shortest)
     aggs = sorted(q.shape(b.expr_of_rvalue(s["rv"]), r) for bi, si, s, it in b.locations() if not it and s["k"] == "assign" and s["rv"]["k"] == "agg" and s["rv"].get("adt", "").endswith("Cow"))
-    ctx.check(aggs == ["Cow::Borrowed{0:Vec::as_slice(base_path)}", "Cow::Borrowed{0:Vec::as_slice(target_path)}"], rule, fn, "items", "the helper is given exactly the target and base component lists", detail=str(aggs))
+    ctx.check(aggs == ["Cow::Borrowed{0:base_path}", "Cow::Borrowed{0:target_path}"], rule, fn, "items", "the helper is given exactly the target and base component lists", detail=str(aggs))
     srt = [q.shape(b.expr_of_call(t), r) for bi, t in b.calls() if q.nice(t.get("callee")) in ("slice::sort_by_key", "slice::sort_unstable_by_key")]
     ctx.check(len(srt) == 1 and q.wild("slice::sort*_by_key(*,%s(*len(p1)))" % LAM, srt[0]), rule, fn, "sorted-by-len", "the lists are ordered by length before the helper runs (it indexes the first as the shortest)", detail=str(srt))
     h = ctx.body(HELP)
